@@ -12,6 +12,7 @@ import (
 	"strings"
 	"sync"
 	"unicode"
+	"unicode/utf8"
 )
 
 var (
@@ -267,9 +268,10 @@ func New(rules Rules) (*StatefulDefinition, error) {
 					return nil, fmt.Errorf("lexer: %s.%d: %s", key, i, err)
 				}
 			}
+			first, _ := utf8.DecodeRuneInString(rule.Name) // The first letter, not the first byte.
 			compiled[key] = append(compiled[key], compiledRule{
 				Rule:   rule,
-				ignore: len(rule.Name) > 0 && unicode.IsLower(rune(rule.Name[0])),
+				ignore: len(rule.Name) > 0 && unicode.IsLower(first),
 				RE:     re,
 			})
 		}
